@@ -261,6 +261,9 @@ public:
                     t1 /= maxval;
                     Scalar p0 = p / maxval;
                     z = maxval * sqrt(abs(p0 * p0 + t0 * t1));
+                    // An unsplit 2x2 block must stay flagged as a complex pair (z > 0)
+                    if (!(z > Scalar(0)))
+                        z = maxval * Eigen::NumTraits<Scalar>::epsilon();
                 }
                 m_eivalues.coeffRef(i) = Complex(m_matT.coeff(i + 1, i + 1) + p, z);
                 m_eivalues.coeffRef(i + 1) = Complex(m_matT.coeff(i + 1, i + 1) + p, -z);
